@@ -340,6 +340,36 @@ func checkC29(w *World, r *Run) {
 		r.Check(bad == "", ruleQuery, "uriEncode's other replacements map between equivalent encodings", ue.Pos(), fmt.Sprint(repl), "replacement(s) "+bad+"change the value")
 	}
 	checkC29EscapeBound(w, r)
+	// the server may insist on a signature only for headers the SDK signers do sign: x-amz-*
+	// and content-md5. A wider pattern (a shorter prefix such as "x-amz", which also matches
+	// X-Amzn-Trace-Id added by load balancers and tracing) rejects valid SDK requests.
+	ruleMust := r.Rule("must-be-signed-set-is-not-wider-than-the-sdk-signs", "F7",
+		"mustBeSignedHeader matches only the exact name content-md5 and the prefix x-amz- (with the dash)", 2)
+	if must := w.SSAFunc(relAuthn, "mustBeSignedHeader"); must == nil {
+		r.Anchor(ruleMust, relAuthn+".mustBeSignedHeader")
+	} else {
+		n := 0
+		allInstrs(must, false, func(_ *ssa.Function, ins ssa.Instruction) {
+			switch x := ins.(type) {
+			case *ssa.BinOp:
+				if x.Op == token.EQL {
+					if sv, ok := constString(x.Y); ok {
+						n++
+						r.Check(sv == "content-md5", ruleMust, "mustBeSignedHeader: exact name \""+sv+"\"", x.Pos(), "content-md5", "SDK signers do not sign this header: valid requests carrying it unsigned are rejected")
+					}
+				}
+			case *ssa.Call:
+				if g := calleeObj(x); g != nil && (g.Name() == "HasPrefix" || g.Name() == "Contains" || g.Name() == "HasSuffix") && g.Pkg() != nil && g.Pkg().Path() == "strings" {
+					sv, ok := constString(x.Call.Args[1])
+					n++
+					r.Check(ok && g.Name() == "HasPrefix" && sv == "x-amz-", ruleMust, "mustBeSignedHeader: pattern "+g.Name()+" \""+sv+"\"", x.Pos(), "prefix x-amz-", "the pattern is wider than the x-amz- prefix SDK signers sign: headers such as X-Amzn-Trace-Id, which SDK requests carry unsigned, make a valid request fail authentication")
+				}
+			}
+		})
+		if n == 0 {
+			r.Bad(ruleMust, "mustBeSignedHeader: patterns", must.Pos(), "no string tests found")
+		}
+	}
 	r.NotCovered("everything else: acceptance of all SDK-generated requests is a runtime comparison against the SDK signer; header canonicalisation (whitespace folding), presign query parameters, time handling")
 	_ = types.Universe
 }
